@@ -1,0 +1,28 @@
+//go:build verif
+
+package queue
+
+import "github.com/arm-doe/sts"
+
+// Exports for the verification harness in /verif (build tag "verif" only).
+
+// VerifSortedFile wraps the queue's per-file allocation state (sortedFile) so that the
+// harness can drive allocate / isAllocated / getSendSize directly.
+type VerifSortedFile struct{ f *sortedFile }
+
+// VerifNewSortedFile builds a sortedFile around orig exactly as Push does (orig only;
+// group and links are not needed by the three functions under test).
+func VerifNewSortedFile(orig sts.Hashed) *VerifSortedFile {
+	return &VerifSortedFile{f: &sortedFile{orig: orig}}
+}
+
+// Allocate exposes sortedFile.allocate.
+func (v *VerifSortedFile) Allocate(desired int64) (offset int64, length int64) {
+	return v.f.allocate(desired)
+}
+
+// IsAllocated exposes sortedFile.isAllocated.
+func (v *VerifSortedFile) IsAllocated() bool { return v.f.isAllocated() }
+
+// GetSendSize exposes sortedFile.getSendSize.
+func (v *VerifSortedFile) GetSendSize() int64 { return v.f.getSendSize() }
